@@ -255,5 +255,3 @@ func (e *Env) syncStatefulSet(s *stsView) string {
 	}
 	return ""
 }
-
-func (e *Env) stepDaemonSets() string { return "" }
